@@ -286,7 +286,9 @@ class Interp:
         for f in S.str_lit_axioms():
             s.add(f)
         self.eng.stats["feas_checks"] += 1
-        return s.check() != z3.unsat
+        from .discharge import safe_check
+
+        return safe_check(s, FEAS_TIMEOUT_MS) != z3.unsat
 
     def must_hold(self, c):
         s = z3.Solver()
@@ -297,7 +299,9 @@ class Interp:
         for f in S.str_lit_axioms():
             s.add(f)
         s.add(z3.Not(c))
-        return s.check() == z3.unsat
+        from .discharge import safe_check
+
+        return safe_check(s, FEAS_TIMEOUT_MS) == z3.unsat
 
     def branch(self, c):
         c = z3.simplify(c)
